@@ -93,6 +93,14 @@ impl Interp {
                     Err(_) => "err".into(),
                 }
             }
+            ["addr.cmp", a, b] => {
+                let (Some(a), Some(b)) = (parse_addr(a), parse_addr(b)) else { return "bad-op".into() };
+                match a.cmp(&b) {
+                    std::cmp::Ordering::Less => "lt".into(),
+                    std::cmp::Ordering::Equal => "eq".into(),
+                    std::cmp::Ordering::Greater => "gt".into(),
+                }
+            }
             ["addr.enc", "vm", a] => {
                 let Some(a) = parse_addr(a) else { return "bad-op".into() };
                 let mut dst = BytesMut::new();
@@ -204,7 +212,7 @@ impl Interp {
             ["e2e.udpm", name, ..] => {
                 let Some(Obj::World(w)) = self.objs.get(*name) else { return "bad-op".into() };
                 let (Some(a), Some(k), Some(per), Some(seed)) = (kv(t, "apps").and_then(|x| x.parse().ok()), kv(t, "targets").and_then(|x| x.parse().ok()), kv(t, "per").and_then(|x| x.parse().ok()), kv(t, "seed").and_then(|x| x.parse().ok())) else { return "bad-op".into() };
-                w.udp_multi(a, k, per, seed)
+                w.udp_multi(a, k, per, seed, kv(t, "mix") == Some("1"))
             }
             ["e2e.udpbind", name, ..] => {
                 let Some(Obj::World(w)) = self.objs.get(*name) else { return "bad-op".into() };
@@ -232,6 +240,11 @@ impl Interp {
                 let Some(Obj::World(w)) = self.objs.get(*name) else { return "bad-op".into() };
                 let Some(n) = kv(t, "n").and_then(|x| x.parse().ok()) else { return "bad-op".into() };
                 w.resolver_stall(n, kv(t, "via") == Some("udp"))
+            }
+            ["e2e.udpflood", name, ..] => {
+                let Some(Obj::World(w)) = self.objs.get(*name) else { return "bad-op".into() };
+                let Some(ms) = kv(t, "ms").and_then(|x| x.parse().ok()) else { return "bad-op".into() };
+                w.udp_flood(ms)
             }
             ["e2e.cut", name] => {
                 let Some(Obj::World(w)) = self.objs.get(*name) else { return "bad-op".into() };
